@@ -41,33 +41,39 @@ typedef struct {
 #define NUM() { O_NUM, -1, -1 }
 
 static const cfg_t cfgs[] = {
-    { "U0.create || X.create", 1, 0, 0, { 0 }, 2,
-      { { A_U0, 1, { CR(0) } }, { A_X, 1, { CR(1) } } } },
-    { "U0.create_r(2) || X.create_r(2)", 1, 0, 0, { 0 }, 2,
-      { { A_U0, 1, { CRR(0, 2) } }, { A_X, 1, { CRR(1, 2) } } } },
-    { "U0.create || X.create_r(1)", 1, 0, 0, { 0 }, 2,
-      { { A_U0, 1, { CR(0) } }, { A_X, 1, { CRR(1, 1) } } } },
+    /* quick tier, cheapest first (a deadline cuts the tail, not the head) */
     { "U0.set_rank(a,3) || X.set_rank(b,3)", 1, 0, 2, { 1, 2 }, 2,
       { { A_U0, 1, { SR(0, 3) } }, { A_X, 1, { SR(1, 3) } } } },
     { "U0.set_rank(a,3) || X.set_rank(b,1)  (a=1,b=2)", 1, 0, 2, { 1, 2 }, 2,
       { { A_U0, 1, { SR(0, 3) } }, { A_X, 1, { SR(1, 1) } } } },
-    { "U0.free(a) || X.create  (a=1)", 0, 0, 1, { 1 }, 2,
-      { { A_U0, 1, { FR(0) } }, { A_X, 1, { CR(1) } } } },
     { "U0.set_rank(a,3) || X.set_rank(a,4)  same stream", 1, 0, 1, { 1 }, 2,
       { { A_U0, 1, { SR(0, 3) } }, { A_X, 1, { SR(0, 4) } } } },
     { "U0.set_rank(a,3) || X.set_rank(a,3)  same stream, same rank", 1, 0, 1,
       { 1 }, 2,
       { { A_U0, 1, { SR(0, 3) } }, { A_X, 1, { SR(0, 3) } } } },
-    { "U1.set_rank(a,3) || X.free(b) || U0.get_num  (ES1=1,a=2,b=3)", 0, 1, 2,
-      { 2, 3 }, 3,
-      { { A_U1, 1, { SR(0, 3) } }, { A_X, 1, { FR(1) } },
-        { A_U0, 2, { NUM(), NUM() } } } },
+    { "U0.set_rank(a,3) || X.set_rank(b,4) || U1.set_rank(c,5)  chain "
+      "(ES1=1,a=2,b=3,c=4)",
+      1, 1, 3, { 2, 3, 4 }, 3,
+      { { A_U0, 1, { SR(0, 3) } }, { A_X, 1, { SR(1, 4) } },
+        { A_U1, 1, { SR(2, 5) } } } },
     { "U0.set_rank(a,2);set_rank(a,1) || X.create_r(1)  (a=1)", 1, 0, 1, { 1 },
       2,
       { { A_U0, 2, { SR(0, 2), SR(0, 1) } }, { A_X, 1, { CRR(1, 1) } } } },
     { "U0.create_r(2) || X.get_num;get_num", 1, 0, 0, { 0 }, 2,
       { { A_U0, 1, { CRR(0, 2) } }, { A_X, 2, { NUM(), NUM() } } } },
+    { "U0.create_r(2) || X.create_r(2)", 1, 0, 0, { 0 }, 2,
+      { { A_U0, 1, { CRR(0, 2) } }, { A_X, 1, { CRR(1, 2) } } } },
+    { "U0.create || X.create_r(1)", 1, 0, 0, { 0 }, 2,
+      { { A_U0, 1, { CR(0) } }, { A_X, 1, { CRR(1, 1) } } } },
+    { "U0.create || X.create", 1, 0, 0, { 0 }, 2,
+      { { A_U0, 1, { CR(0) } }, { A_X, 1, { CR(1) } } } },
     /* thorough */
+    { "U0.free(a) || X.create  (a=1)", 0, 0, 1, { 1 }, 2,
+      { { A_U0, 1, { FR(0) } }, { A_X, 1, { CR(1) } } } },
+    { "U1.set_rank(a,3) || X.free(b) || U0.get_num  (ES1=1,a=2,b=3)", 0, 1, 2,
+      { 2, 3 }, 3,
+      { { A_U1, 1, { SR(0, 3) } }, { A_X, 1, { FR(1) } },
+        { A_U0, 2, { NUM(), NUM() } } } },
     { "U0.create;free own || X.create;set_rank(own,1)", 0, 0, 0, { 0 }, 2,
       { { A_U0, 2, { CR(0), FR(0) } }, { A_X, 2, { CR(1), SR(1, 1) } } } },
     { "U1.create || X.create  (ES1=1)", 0, 1, 0, { 0 }, 2,
@@ -82,11 +88,6 @@ static const cfg_t cfgs[] = {
     { "U1.create_r(2) || X.set_rank(a,2);get_num  (ES1=1,a=3)", 0, 1, 1, { 3 },
       2,
       { { A_U1, 1, { CRR(1, 2) } }, { A_X, 2, { SR(0, 2), NUM() } } } },
-    { "U0.set_rank(a,3) || X.set_rank(b,4) || U1.set_rank(c,5)  chain "
-      "(ES1=1,a=2,b=3,c=4)",
-      1, 1, 3, { 2, 3, 4 }, 3,
-      { { A_U0, 1, { SR(0, 3) } }, { A_X, 1, { SR(1, 4) } },
-        { A_U1, 1, { SR(2, 5) } } } },
 };
 
 static const cfg_t *C;
